@@ -233,7 +233,14 @@ def reader_frame_table(ctx, slot: str, assume_present=("Lane", "EndTime")):
     for op in FO.pipeline(fn.node):
         if op.kind == "root":
             continue
-        if op.kind == "?":
+        if op.kind == "?" and isinstance(op.node, ast.Expr) and isinstance(op.node.value, ast.Call) and isinstance(op.node.value.func, ast.Attribute) and \
+                FO.unchain(op.node.value)[0] is not None and isinstance(FO.unchain(op.node.value)[0], ast.Name) and FO.unchain(op.node.value)[0].id == "df" and \
+                op.node.value.func.attr in ("fillna", "rename", "reindex", "astype", "drop", "sort_values", "reset_index", "assign", "replace") and \
+                not any(k.arg == "inplace" and isinstance(k.value, ast.Constant) and k.value.value is True for k in op.node.value.keywords):
+            # `df.fillna(...)` as a statement: these methods return a new frame, the result is thrown away
+            issues.append((op.node, f"'{unparse(op.node)[:70]}' has no effect: {op.node.value.func.attr}() returns a new frame and the result is discarded "
+                                    f"(the defaults it was meant to apply are never applied)", op.node.value.func.attr))
+        elif op.kind == "?":
             undec.append(f"unrecognised statement {unparse(op.node)[:60]}")
         elif op.kind == "augstore":
             cs = get(op.name, op.node)
